@@ -1,0 +1,103 @@
+//go:build verif
+
+package wallet
+
+import (
+	"time"
+
+	"github.com/btcsuite/btcwallet/chain"
+	"github.com/btcsuite/btcwallet/waddrmgr"
+	"github.com/btcsuite/btcwallet/walletdb"
+	"github.com/btcsuite/btcwallet/wtxmgr"
+)
+
+// The functions in this file exist only under the "verif" build tag. They
+// run the wallet's unexported notification handlers exactly as
+// handleChainNotifications does (one walletdb.Update per notification), so
+// that a harness can drive them deterministically instead of racing the
+// notification goroutine.
+
+// VerifSetChainClient attaches a chain backend without starting the
+// notification and rescan goroutines (SynchronizeRPC starts them).
+func (w *Wallet) VerifSetChainClient(c chain.Interface) {
+	w.chainClientLock.Lock()
+	w.chainClient = c
+	w.chainClientLock.Unlock()
+}
+
+// VerifConnectBlock processes a chain.BlockConnected notification.
+func (w *Wallet) VerifConnectBlock(b wtxmgr.BlockMeta) error {
+	return walletdb.Update(w.db, func(tx walletdb.ReadWriteTx) error {
+		return w.connectBlock(tx, b)
+	})
+}
+
+// VerifDisconnectBlock processes a chain.BlockDisconnected notification.
+func (w *Wallet) VerifDisconnectBlock(b wtxmgr.BlockMeta) error {
+	return walletdb.Update(w.db, func(tx walletdb.ReadWriteTx) error {
+		return w.disconnectBlock(tx, b)
+	})
+}
+
+// VerifAddRelevantTx processes a chain.RelevantTx notification.
+func (w *Wallet) VerifAddRelevantTx(rec *wtxmgr.TxRecord,
+	block *wtxmgr.BlockMeta) error {
+
+	return walletdb.Update(w.db, func(tx walletdb.ReadWriteTx) error {
+		return w.addRelevantTx(tx, rec, block)
+	})
+}
+
+// VerifFilteredBlockConnected processes a chain.FilteredBlockConnected
+// notification (all relevant transactions of the block atomically).
+func (w *Wallet) VerifFilteredBlockConnected(block *wtxmgr.BlockMeta,
+	recs []*wtxmgr.TxRecord) error {
+
+	if len(recs) == 0 {
+		return nil
+	}
+	return walletdb.Update(w.db, func(tx walletdb.ReadWriteTx) error {
+		for _, rec := range recs {
+			if err := w.addRelevantTx(tx, rec, block); err != nil {
+				return err
+			}
+		}
+		return nil
+	})
+}
+
+// VerifSyncWithChain runs the start-up synchronisation (birthday location,
+// optional recovery, rollback to the last common block, rescan request).
+// The rescan goroutines must be running (SynchronizeRPC) for it to return.
+func (w *Wallet) VerifSyncWithChain(birthday *waddrmgr.BlockStamp) error {
+	return w.syncWithChain(birthday)
+}
+
+// VerifRecovery runs the address recovery from the given birthday block.
+func (w *Wallet) VerifRecovery(c chain.Interface,
+	birthday *waddrmgr.BlockStamp) error {
+
+	return w.recovery(c, birthday)
+}
+
+// VerifSetRecoveryWindow sets the recovery window used by recovery.
+func (w *Wallet) VerifSetRecoveryWindow(n uint32) {
+	w.recoveryWindow = n
+}
+
+// VerifResendUnminedTxs rebroadcasts the unmined transactions as the rescan
+// handler does after a finished rescan.
+func (w *Wallet) VerifResendUnminedTxs() {
+	w.resendUnminedTxs()
+}
+
+// VerifLocateBirthdayBlock exposes the birthday block search.
+func VerifLocateBirthdayBlock(c chain.Interface,
+	birthday time.Time) (*waddrmgr.BlockStamp, error) {
+
+	return locateBirthdayBlock(c, birthday)
+}
+
+// VerifRecoveryBatchSize is the number of blocks recovery scans per database
+// transaction.
+const VerifRecoveryBatchSize = recoveryBatchSize
